@@ -503,9 +503,9 @@ func dumpHash(b *types.Block) [32]byte { return sha256.Sum256([]byte(dump(b))) }
 
 // dumpSections: sha-256 of the four sections of the dump (header line, transaction lines, evidence lines,
 // commit lines) - the reference content each commitment (Block.Hash, Data.Hash, Evidence.Hash, Commit.Hash) stands for.
-func dumpSections(b *types.Block) (sec [4][32]byte) {
+func dumpSections(d string) (sec [4][32]byte) {
 	var parts [4]strings.Builder
-	for i, l := range strings.Split(strings.TrimSuffix(dump(b), "\n"), "\n") {
+	for i, l := range strings.Split(strings.TrimSuffix(d, "\n"), "\n") {
 		k := 3
 		switch {
 		case i == 0:
